@@ -11,3 +11,14 @@ Eval vm_compute in (length all_cases, ok_all).
 
 Theorem psbt_cases_match_model : ok_all = true.
 Proof. vm_compute. reflexivity. Qed.
+
+(* Placeholder::PubkeyHash completion of the compiled code = the model's resolve_pkh on every
+   (input state, key hash) pair the run met *)
+Definition pkh_failing : list (N * option N) :=
+  map (fun o => (snd (fst o), snd o)) (filter (fun o => negb (pkh_row_ok pkh_tab o)) pkh_obs).
+Eval vm_compute in (length pkh_obs, length pkh_failing, length pkh_tap_obs,
+                    length (filter (fun o => negb (pkh_tap_row_ok pkh_tab xl_tab o)) pkh_tap_obs)).
+
+Theorem raw_pkh_resolution_matches_model :
+  forallb (pkh_row_ok pkh_tab) pkh_obs && forallb (pkh_tap_row_ok pkh_tab xl_tab) pkh_tap_obs = true.
+Proof. vm_compute. reflexivity. Qed.
